@@ -130,3 +130,27 @@ Lemma WF_mk gv h nx st pl m :
   globals_ok gv h -> (N.of_nat (length gv) <= nx)%N -> bytes_ok m ->
   WF gv (mkCfg h nx st pl m).
 Proof. intros. constructor; assumption. Qed.
+
+Lemma Forall_firstn {A} (P : A -> Prop) n : forall l, Forall P l -> Forall P (firstn n l).
+Proof.
+  induction n as [|n IH]; intros l H; cbn [firstn]; [constructor|].
+  destruct l as [|a r]; [constructor|]. apply Forall_cons_iff in H as [Ha Hr].
+  constructor; [exact Ha|apply IH, Hr].
+Qed.
+Lemma Forall_skipn {A} (P : A -> Prop) n : forall l, Forall P l -> Forall P (skipn n l).
+Proof.
+  induction n as [|n IH]; intros l H; cbn [skipn]; [exact H|].
+  destruct l as [|a r]; [constructor|]. apply Forall_cons_iff in H as [Ha Hr]. apply IH, Hr.
+Qed.
+Lemma bytes_ok_write m off bs : bytes_ok m -> bytes_ok bs -> bytes_ok (mem_write m off bs).
+Proof.
+  unfold bytes_ok, mem_write. intros Hm Hb.
+  apply Forall_app. split; [apply Forall_firstn, Hm|].
+  apply Forall_app. split; [exact Hb|apply Forall_skipn, Hm].
+Qed.
+Lemma bytes_ok_resize m n : bytes_ok m -> bytes_ok (mem_resize m n).
+Proof.
+  unfold bytes_ok, mem_resize. intros Hm. destruct (_ <? _)%N; [|exact Hm].
+  apply Forall_app. split; [exact Hm|]. apply Forall_forall. intros x Hx.
+  apply repeat_spec in Hx. subst. lia.
+Qed.
